@@ -488,7 +488,7 @@ Definition empty_store : store nat := fun _ => None.
 
 (* example data for Props/C16.v *)
 Definition G3 : genparams :=       (* the shape parameters of core_maths, complexity 3 (as traced) *)
-  mkGen [[]; [(1, [KOther 0; KOther 1; KBase 5]); (1, [KOther 0; KOther 1; KBase 5])]; []]
+  mkGen [[]; [(1, [KOther 0; KOther 1; KBase 5]); (1, [KOther 0; KOther 1; KBase 5])]]
         [(2, [KOther 0; KParam 0; KParam 1; KBase 0; KBase 3; KBase 5]); (2, [KOther 0; KOther 1; KBase 5])]
         [((2, [KOther 0; KOther 1; KParam 0]), true); ((2, []), false); ((2, []), false)]
         (2, [KOther 0; KOther 1; KParam 0; KBase 5]).
